@@ -17,6 +17,8 @@ import Gengo.Gen.Consts
 import Gengo.Model.DeepCopy
 import Gengo.Model.RuntimeDoc
 import Gengo.Model.TypeLit
+import Gengo.Model.Partial
+import Gengo.Model.Assemble
 import Gengo.Model.Loader
 import Gengo.Model.Register
 open Gengo
@@ -528,6 +530,32 @@ def runLocate (dir : String) (toks : List String) : String :=
 end C13Drv
 
 
+namespace C18Drv
+open TypeLit
+/-- `partial <self> <imports> <omit> {<name> <tag> <n> <n type tokens>}*` -/
+def run (f15 f10 : Bool) (self names om : String) (toks : List String) : String :=
+  let tab : List (List Char × List Char) := if names == "-" then [] else
+    (names.splitOn ",").map fun kv => match kv.splitOn "=" with
+      | [k, v] => (unhex k, unhex v)
+      | _ => ([], [])
+  let env : Env := { self := unhex self, localName := fun p => (tab.lookup p).getD [] }
+  let omitted : List (List Char) := if om == "-" then [] else (om.splitOn ",").map unhex
+  let rec fields : Nat → List String → Option (List Partial.OField)
+    | 0, _ => some []
+    | _, [] => some []
+    | fuel + 1, name :: tag :: n :: r =>
+      (match TlProbe.parseTy (r.take n.toNat!) with
+       | some (t, []) => (fields fuel (r.drop n.toNat!)).map fun fs => ⟨unhex name, t, unhex tag⟩ :: fs
+       | _ => none)
+    | _, _ => none
+  match fields (toks.length + 1) toks with
+  | none => "bad-op"
+  | some fs =>
+    "fields " ++ String.intercalate ";" ((Partial.genFields f15 env omitted fs).map fun (n, e, tg) =>
+      hex n ++ "|" ++ hex (TExpr.show (if f10 then e else e)) ++ "|" ++ (match tg with | some t => hex t | none => "?"))
+end C18Drv
+
+
 def handle (fx : String → Bool) (line : String) : String :=
   let fxB := fx "all"
   let fx1 := if fxB then "1" else "0"
@@ -592,6 +620,13 @@ def handle (fx : String → Bool) (line : String) : String :=
     (match Resolver.resultsOf funcs (fx == "1") 200 f.toNat! with
      | none => "diverge"
      | some rs => "(" ++ String.intercalate ", " (rs.map fun r => String.intercalate " | " (r.map showRes)) ++ ")")
+  | "assemble" :: pkg :: gen :: imps :: frags =>
+    let tab : List (List Char × List Char) := if imps == "-" then [] else
+      (imps.splitOn ",").map fun kv => match kv.splitOn "=" with
+        | [k, v] => (unhex k, unhex v)
+        | _ => ([], [])
+    "ok " ++ hex (Assemble.source (unhex pkg) (unhex gen) tab (frags.map unhex)) ++ " file " ++ hex (Assemble.fileName "zz_generated".toList (unhex gen))
+  | "partial" :: self :: names :: om :: toks => C18Drv.run (fx "F15") (fx "F10") self names om toks
   | "tables" :: toks => C13Drv.runTables (fx "F12a") toks
   | "methods" :: t :: canPtr :: toks => C13Drv.runMethods (fx "F12c") t canPtr toks
   | "register" :: toks => C13Drv.runRegister (fx "F12b") toks
